@@ -662,3 +662,75 @@ def translate_propagator_loops(src, cls, fname, prefix='py_'):
                                                 'true' if raises else 'false'))
         status[algo] = 'skel'
     return out, status
+
+
+# ---------------------------------------------------------------------------------------------
+# the phases of TimeReversalOp.contract:  inside `for (nele, nab), sector in out._civec.items():`
+#     if nalpha < nbeta:   ... phase = (-1)**(E1); phase2 = (-1)**(E2)
+#                          sector.coeff = sector2.coeff.T.conj() * phase2;  sector2.coeff = tmp.T.conj() * phase
+#     elif nalpha > nbeta: (closure test only)
+#     elif nalpha == nbeta: sector.coeff = sector.coeff.T.conj()
+# translated into the two exponents as functions of (nalpha, nbeta); every other statement of the branch is compared with
+# the expected text (fail-closed)
+def translate_trev_phases(src, cls, fname, prefix='py_'):
+    tree = ast.parse(src)
+    fdef = None
+    for n in tree.body:
+        if isinstance(n, ast.ClassDef) and n.name == cls:
+            for m in n.body:
+                if isinstance(m, ast.FunctionDef) and m.name == fname:
+                    fdef = m
+    if fdef is None:
+        raise Unsupported('method not found')
+    loops = [n for n in fdef.body if isinstance(n, ast.For)]
+    if len(loops) != 1:
+        raise Unsupported('expected one loop')
+    loop = loops[0]
+    if ast.unparse(loop.target) != '((nele, nab), sector)' or ast.unparse(loop.iter) != 'out._civec.items()':
+        raise Unsupported('loop header %s in %s' % (ast.unparse(loop.target), ast.unparse(loop.iter)))
+    body = list(loop.body)
+    if len(body) != 2 or ast.unparse(body[0]) != 'nalpha, nbeta = alpha_beta_electrons(nele, nab)' or not isinstance(body[1], ast.If):
+        raise Unsupported('loop body')
+    br = body[1]
+    if ast.unparse(br.test) != 'nalpha < nbeta':
+        raise Unsupported('first branch %s' % ast.unparse(br.test))
+    tr = GTr({})
+    exps = {}
+    seen = []
+    for st in br.body:
+        txt = ast.unparse(st)
+        if isinstance(st, ast.If) and all(isinstance(x, ast.Raise) for x in st.body) and not st.orelse:
+            continue                                            # closure test
+        if isinstance(st, ast.Assign) and len(st.targets) == 1 and isinstance(st.targets[0], ast.Name) \
+                and st.targets[0].id in ('phase', 'phase2'):
+            v = st.value
+            if not (isinstance(v, ast.BinOp) and isinstance(v.op, ast.Pow) and ast.unparse(v.left) in ('-1', '(-1)')):
+                raise Unsupported('phase form %s' % txt)
+            if tr.names(v.right) - {'nalpha', 'nbeta'}:
+                raise Unsupported('phase depends on %s' % sorted(tr.names(v.right)))
+            exps[st.targets[0].id] = tr.expr(v.right)
+            continue
+        seen.append(txt)
+    want = ['sector2 = out._civec[nele, nbeta - nalpha]', 'tmp = np.copy(sector.coeff)',
+            'sector.coeff = sector2.coeff.T.conj() * phase2', 'sector2.coeff = tmp.T.conj() * phase']
+    if seen != want or set(exps) != {'phase', 'phase2'}:
+        raise Unsupported('swap branch: %s' % seen)
+    # the other two branches
+    rest = br.orelse
+    if len(rest) != 1 or not isinstance(rest[0], ast.If) or ast.unparse(rest[0].test) != 'nalpha > nbeta':
+        raise Unsupported('second branch')
+    b2 = rest[0]
+    for st in b2.body:
+        if not (isinstance(st, ast.If) and all(isinstance(x, ast.Raise) for x in st.body) and not st.orelse):
+            raise Unsupported('second branch does more than the closure test: %s' % ast.unparse(st)[:60])
+    rest = b2.orelse
+    if len(rest) != 1 or not isinstance(rest[0], ast.If) or ast.unparse(rest[0].test) != 'nalpha == nbeta' or rest[0].orelse:
+        raise Unsupported('third branch')
+    b3 = [ast.unparse(st) for st in rest[0].body]
+    if b3 != ['sector.coeff = sector.coeff.T.conj()']:
+        raise Unsupported('equal branch: %s' % b3)
+    return ('(* sector (nalpha < nbeta) receives the data of its partner times (-1)^into_low; the partner (nbeta, nalpha)\n'
+            '   receives the data of the sector times (-1)^into_high; equal counts: transposed conjugate, no phase *)\n'
+            'Definition %strev_exp_into_high (v_nalpha v_nbeta : Z) : Z := %s.\n'
+            'Definition %strev_exp_into_low (v_nalpha v_nbeta : Z) : Z := %s.\n'
+            % (prefix, exps['phase'], prefix, exps['phase2']))
